@@ -13,7 +13,7 @@ SHARD = 60
 RULE = ("string_generator: first N <= 800 values with skip collections given as list or set (members among the "
         "first 800 words, incl. 'A', 'Z', 'AA', 'ZZ'); int_generator; pairwise; new_track on annotations whose segment "
         "already holds generated names ('0','1',...), the candidate, or prefixed names; to_annotation with each "
-        "generator kind; random_subsegment with np.random.random replaced by a stub returning k/1024 (so the model "
+        "generator kind; random_subsegment refusing a fixed duration that exceeds the segment by less than a microsecond; random_subsegment with np.random.random replaced by a stub returning k/1024 (so the model "
         "computes the same value) and random_segment under 5 seeds; non-trivial = skip non-empty / candidate taken / "
         "min_duration given")
 F = 1 << 20
@@ -61,6 +61,10 @@ def generate(rng, tier):
         md = None if rng.random() < 0.5 else rng.choice([0, dur // 2, dur, max(0, dur - 1)])
         cases.append({"k": "subseg", "s": s, "dur": dur, "min": md, "k1": rng.choice([0, 1, 512, 1023, rng.randrange(1024)]),
                       "k2": rng.choice([0, 1023, rng.randrange(1024)])})
+    for _ in range(n):
+        # a fixed duration exceeding the segment's by less than a microsecond (in units of 2^-30 s) must be refused
+        s = gen.rand_segment(rng, "K0", span=30, maxlen=20, allow_empty=0.0)
+        cases.append({"k": "subseg_excess", "s": s, "excess": rng.choice([1, 64, 512, 1000, 1073])})
     for seed in range(5):
         cases.append({"k": "randseg", "segs": [x for x in gen.rand_timeline(rng, "K0", maxn=5) if x[1] > x[0]] or [[0, 3]],
                       "seed": seed, "weighted": seed % 2 == 0})
@@ -134,6 +138,22 @@ def run(case):
             return {"obs": [conv(x.start), conv(x.end)]}
         finally:
             np.random.random = orig
+    if k == "subseg_excess":
+        from pyannote.core.utils import random as R
+        tb = TB("K0")
+        seg = tb.S(case["s"])
+        dur = (seg.end - seg.start) + case["excess"] / float(1 << 30)
+        assert dur > seg.end - seg.start
+        orig = np.random.random
+        np.random.random = lambda: 0.0
+        try:
+            try:
+                x = next(R.random_subsegment(seg, dur))
+            except ValueError:
+                return {"obs": None}
+            return {"obs": [float(x.start).hex(), float(x.end).hex()]}
+        finally:
+            np.random.random = orig
     if k == "randseg":
         from pyannote.core.utils import random as R
         tb = TB("K0")
@@ -166,6 +186,8 @@ def encode(case, o):
     if k == "subseg":
         return (f"KSubseg 0 {e.seg(case['s'])} {e.z(case['dur'])} {e.opt(case['min'], e.z)} {e.z(case['k1'])} "
                 f"{e.z(case['k2'])} {e.opt(o['obs'], e.seg)}")
+    if k == "subseg_excess":
+        return f"KSubsegExcess {e.seg(case['s'])} {e.z(case['excess'])} {e.b(o['obs'] is None)}"
     if k == "randseg":
         return f"KRandSeg 0 {e.segs(case['segs'])} {e.segs(o['obs'])}"
 
